@@ -1,8 +1,8 @@
 CONSTANTS
   Retain = 4
-  HeadBeforeCanon = TRUE
-  KeepOrphanVersions = TRUE
-  PruneHidesCommitError = TRUE
+  HeadBeforeCanon = FALSE
+  KeepOrphanVersions = FALSE
+  PruneHidesCommitError = FALSE
   MaxCrashes = 2
   Kinds = {"plain", "tx", "idupd"}
   ForkKinds = {"plain", "tx", "idupd"}
